@@ -1,7 +1,8 @@
 """C07: qnoise knob and QNoiseScheduler (QNoise.tla, MC_QNoise, MC_QKnob, Trace_QNoise, Trace_QKnob)."""
 import json
 import os
-from common import (Check, Machinery, run_tlc, run_driver, simulate, scratch_root, read_ndjson, check_coverage)
+from common import (Check, Machinery, run_tlc, run_driver, run_drivers_parallel, simulate, scratch_root, read_ndjson,
+                    check_coverage)
 
 
 def hook_behaviours(behs):
@@ -46,19 +47,54 @@ def run(pid, tier, seed):
   chk.assumptions = ["integer schedule exponents (the exact rational schedule); non-integer exponents are not judged",
                      "factors k/4 in the knob life cycles so that float32 mixing is reproduced exactly"]
   root = scratch_root()
+  import concurrent.futures as cf
+
+  NS = 5
+
+  def sharded(mode, bpath, tpath):
+    """NS driver processes on slices of the behaviours; the traces (disjoint trace ids) are concatenated."""
+    outs = run_drivers_parallel([("drive_qnoise.py", [mode, bpath, "%s.%d" % (tpath, k), tier, seed, k, NS]) for k in range(NS)])
+    events, errs, traces = 0, [], 0
+    with open(tpath, "w") as fh:
+      for k in range(NS):
+        i = json.loads(outs[k].strip().splitlines()[-1])
+        events, traces = events + i["events"], traces + i["traces"]
+        fh.write(open("%s.%d" % (tpath, k)).read())
+        errs += json.load(open("%s.%d.err.json" % (tpath, k)))
+    json.dump(errs, open(tpath + ".err.json", "w"))
+    return {"events": events, "traces": traces}
+
+  # the two parts are independent: model-check, simulate, drive and judge them concurrently, then account sequentially
+  def sched_part():
+    mc = run_tlc("MC_QNoise", "MC_QNoise_" + tier, coverage=True, workers=8)
+    nsim = 250 if tier == "quick" else 3000
+    behs, simres = simulate("MC_QNoise", "MC_QNoise_" + tier, nsim, 22, seed % 100000)
+    hb = hook_behaviours(behs)
+    bpath = os.path.join(root, "sched_beh.json")
+    json.dump(hb, open(bpath, "w"))
+    tpath = os.path.join(root, "sched.ndjson")
+    info = sharded("sched", bpath, tpath)
+    res = run_tlc("Trace_QNoise", "Trace_QNoise", workers=1, env={"TRACE_FILE": tpath})
+    return mc, hb, tpath, info, res
+
+  def knob_part():
+    mck = run_tlc("MC_QKnob", "MC_QKnob", coverage=True, workers=4)
+    kb, _ = simulate("MC_QKnob", "MC_QKnob", 210 if tier == "quick" else 2100, 7, seed % 100000 + 1)
+    kbs = knob_behaviours(kb)
+    bpath = os.path.join(root, "knob_beh.json")
+    json.dump(kbs, open(bpath, "w"))
+    tpath = os.path.join(root, "knob.ndjson")
+    info = sharded("knob", bpath, tpath)
+    res = run_tlc("Trace_QKnob", "Trace_QKnob", workers=1, env={"TRACE_FILE": tpath})
+    return mck, kbs, tpath, info, res
+
+  with cf.ThreadPoolExecutor(max_workers=2) as ex:
+    f1, f2 = ex.submit(sched_part), ex.submit(knob_part)
+    mc, hb, tpath, info, res = f1.result()
+    mck, kbs, ktpath, kinfo, kres = f2.result()
   # ---- scheduler
-  mc = run_tlc("MC_QNoise", "MC_QNoise_" + tier, coverage=True)
   chk.add_mc("MC_QNoise_" + tier, mc, "scheduler over all callback sequences")
   check_coverage(mc, ["Init", "Hook", "Call"], "MC_QNoise")
-  nsim = 250 if tier == "quick" else 3000
-  behs, simres = simulate("MC_QNoise", "MC_QNoise_" + tier, nsim, 22, seed % 100000)
-  hb = hook_behaviours(behs)
-  bpath = os.path.join(root, "sched_beh.json")
-  json.dump(hb, open(bpath, "w"))
-  tpath = os.path.join(root, "sched.ndjson")
-  out, _ = run_driver("drive_qnoise.py", ["sched", bpath, tpath, tier, seed])
-  info = json.loads(out.strip().splitlines()[-1])
-  res = run_tlc("Trace_QNoise", "Trace_QNoise", workers=1, env={"TRACE_FILE": tpath})
   if res.distinct != info["events"] + 1:
     raise Machinery("scheduler trace not consumed: %d states / %d events\n%s" % (res.distinct, info["events"], res.out[-2000:]))
   chk.add_trace_run("Trace_QNoise", res, info["events"], info["traces"])
@@ -78,17 +114,9 @@ def run(pid, tier, seed):
     chk.key(json.dumps([b["sp"], [s[0] for s in b["steps"]]]))
   chk.sample({"params": hb[0]["sp"], "hooks": [s[0] for s in hb[0]["steps"]]})
   # ---- knob life cycle
-  mck = run_tlc("MC_QKnob", "MC_QKnob", coverage=True)
+  res, info, tpath = kres, kinfo, ktpath
   chk.add_mc("MC_QKnob", mck, "knob life cycle of one quantizer")
   check_coverage(mck, ["Init", "Build", "Rebuild", "UserUpdate", "Call"], "MC_QKnob")
-  kb, _ = simulate("MC_QKnob", "MC_QKnob", 210 if tier == "quick" else 2100, 7, seed % 100000 + 1)
-  kbs = knob_behaviours(kb)
-  bpath = os.path.join(root, "knob_beh.json")
-  json.dump(kbs, open(bpath, "w"))
-  tpath = os.path.join(root, "knob.ndjson")
-  out, _ = run_driver("drive_qnoise.py", ["knob", bpath, tpath, tier, seed])
-  info = json.loads(out.strip().splitlines()[-1])
-  res = run_tlc("Trace_QKnob", "Trace_QKnob", workers=1, env={"TRACE_FILE": tpath})
   if res.distinct != info["events"] + 1:
     raise Machinery("knob trace not consumed: %d states / %d events\n%s" % (res.distinct, info["events"], res.out[-2000:]))
   chk.add_trace_run("Trace_QKnob", res, info["events"], info["traces"])
